@@ -137,8 +137,9 @@ func (r *runner) explore(bound int, sc vs.Scenario) (*vs.Result, bool) {
 // C07
 
 type c07run struct {
-	file File
-	conf map[string]any
+	file     File
+	deferred bool // every delivered ammo is kept and looked at only after the run (all requests in flight at once)
+	conf     map[string]any
 	drv  *Drv
 	cerr error
 }
@@ -157,11 +158,12 @@ func (r *c07run) scenario(x *vs.X) func(end, msg string) error {
 	ctx, cancel := context.WithCancel(context.Background())
 	x.OnAbort(cancel)
 	x.Deadline = time.Now().Add(time.Hour)
-	d := &Drv{P: p, Consumers: 1, Release: true, Extract: extractHTTP}
+	d := &Drv{P: p, Consumers: 1, Release: true, Extract: extractHTTP, Deferred: r.deferred}
 	r.drv = d
 	vs.Go("driver", func() { d.Start(ctx, cancel) })
 	return func(end, msg string) error {
 		defer cancel()
+		d.Resolve()
 		if err := r.check(end, msg); err != nil {
 			return fmt.Errorf("%v\nfile:\n%q", err, data)
 		}
@@ -288,6 +290,15 @@ func runC07(t *testing.T, spec *hutil.Spec, out *hutil.Out) {
 			}
 			v, complete := rn.explore(0, r.scenario)
 			out.Cells++
+			if v == nil && entries(f.Items) >= 2 {
+				// the same file with all delivered requests in flight at once (as with several instances)
+				r3 := &c07run{file: f, deferred: true, conf: map[string]any{"type": formatType[format], "file": "/ammo", "passes": 3}}
+				if v3, _ := rn.explore(0, r3.scenario); v3 != nil && !rn.e.HarnessErr {
+					v = v3
+					v.Err = fmt.Errorf("%v (all requests in flight)", strings.Replace(v3.Err.Error(), ":", "-INFLIGHT:", 1))
+				}
+				out.Extra["inflight_runs"]++
+			}
 			if rn.e.HarnessErr {
 				out.HarnessErr = f.Name() + ": " + v.Err.Error()
 				return
